@@ -27,7 +27,7 @@ ASSUMPTIONS = [
 MIN_CLASSES = {"quick": {"mutation-on-sealed": 3000, "target-below-root": 800, "op:assign": 1500, "op:setmeta": 500, "op:addpre": 300, "via-seal()": 500}, "thorough": {"target-below-root": 15000}}
 MAX_NODES = {"quick": 6, "thorough": 10}
 
-OPS = ["assign", "assign", "assign", "setmeta", "addpre", "id", "id"]
+OPS = ["assign", "assign", "assign", "setmeta", "addpre", "addprefrom", "id", "id"]
 
 
 def cases(ctx):
@@ -37,6 +37,9 @@ def cases(ctx):
         return {
             "bp": bp,
             "seal": draw(st.one_of(st.none(), st.integers(0, 20))),
+            # a first sealing attempt under a context without a directory (what instance() uses):
+            # it fails inside a path generator; the proper sealing follows
+            "failed_seal_first": draw(st.booleans()),
             "ops": draw(st.lists(st.tuples(st.sampled_from(OPS), st.integers(0, 20), st.integers(0, 40), st.integers(0, 5)), min_size=1, max_size=8)),
         }
 
@@ -121,6 +124,13 @@ def prop(ctx, case):
     labels = set()
     if case["seal"] is not None:
         k = case["seal"] % n
+        if case.get("failed_seal_first"):
+            from experimaestro.xpmutils import EmptyContext
+
+            try:
+                B.objs[k].__xpm__.seal(EmptyContext())
+            except Exception:
+                labels.add("sealing-attempt-failed-first")
         try:
             B.objs[k].__xpm__.seal(DirectoryContext(ctx.scratch / "seal"))
         except Exception as e:
@@ -174,6 +184,10 @@ def prop(ctx, case):
                 flag = [True, False, None][x % 3]
                 what = f"set_meta({flag})"
                 o.__xpm__.set_meta(flag)
+            elif op == "addprefrom":
+                donor = universe.Leaf(i=x).add_pretasks(universe.LW(k=x))
+                what = "add_pretasks_from(<configuration with a pre-task>)"
+                o.add_pretasks_from(donor)
             else:
                 if not lws and cls == "LW":
                     continue
